@@ -682,13 +682,15 @@ class _token_runner:
                 break
         return None, None
 
-    def tokens_till(self, stop_condition: Dict[int, List[str]]):
+    def tokens_till(self, stop_condition: Dict[int, List[str]], after_lambda: bool = False):
         """Yield tokens until we find a stop condition.
 
         * Properly tracks parentheses, etc.
 
         Args:
             stop_condition (Dict[int, List[str]]): The token and string when we stop.
+            after_lambda (bool): The scan starts right after a `lambda` keyword, i.e. inside
+                that lambda's parameter list (whose commas separate parameters).
             can_encounter_newline (bool, optional): Can we encounter a newline. Defaults to True.
 
         Returns:
@@ -700,7 +702,7 @@ class _token_runner:
         braces = 0
         # The nesting depth of each nested lambda whose parameter list we are inside of: the
         # commas there separate parameters.
-        lambda_parameter_lists: List[int] = []
+        lambda_parameter_lists: List[int] = [0] if after_lambda else []
 
         for t in self._tokenizer:
             if (
@@ -765,7 +767,7 @@ def _get_lambda_in_stream(
     # for a comma or a closing paren.
     accumulated_tokens = [start_token]
     saw_new_line = False
-    for t in t_stream.tokens_till({tokenize.OP: [",", ")"]}):
+    for t in t_stream.tokens_till({tokenize.OP: [",", ")"]}, after_lambda=True):
         accumulated_tokens.append(t)
         if t.type == tokenize.NEWLINE or t.string == "\n":
             saw_new_line = True
@@ -904,7 +906,8 @@ def _parse_source_for_lambda(
                 )
 
         def lambda_arg_list(lda: ast.Lambda) -> List[str]:
-            return [a.arg for a in lda.args.args]
+            # as `inspect.getfullargspec` lists them: positional-only ones included
+            return [a.arg for a in lda.args.posonlyargs + lda.args.args]
 
         caller_arg_list = inspect.getfullargspec(ast_source).args
         good_lambdas = [
